@@ -99,11 +99,13 @@ CHECKS["C19"] = {
 CHECKS["C02"] = {
     "text": "Theorems (Coq) over MuModel: trylock/rtrylock never block from ANY world (each own step is never a semaphore wait, a rank 3->0 "
             "decreases, other threads cannot change the caller's pc) and report truthfully; in every reachable world (any threads, programs, "
-            "schedules) the queue holds distinct sleeping lockers and MU_WAITING is set whenever it is non-empty.  Global progress (no run "
-            "ends with every thread asleep or spinning) is decided by the runtime's stuck detector over thousands of schedules; the model is "
-            "replayed in lock-step against the real mu.c.",
+            "schedules) the queue holds distinct sleeping lockers and MU_WAITING is set whenever it is non-empty; NO LOST HAND-OFF: in a "
+            "reachable world where nothing can move, every thread asleep in lock/rlock faces a mutex that is still held, and the last "
+            "holder's release is forced onto the path that scans the queue and wakes somebody (who-wakes-whom invariant HInv, "
+            "Proof/MuProof3.v).  Global progress over thousands of schedules is also decided by the runtime's stuck detector; the model "
+            "is replayed in lock-step against the real mu.c.",
     "design_ref": "DESIGN.md section 4, C02",
-    "note": "The full no-stuck-world theorem is not stated (coverage.partial); abstract counting semaphore in the model.",
+    "note": "Reader half as first written is refuted by writer-priority schedules and restated (coverage.partial); fairness-based liveness not a theorem.",
     "technique": "Coq invariants over source-regenerated transition system + lock-step tie + stuck-state detection on schedules",
 }
 CHECKS["C13"] = {
@@ -167,5 +169,18 @@ CHECKS["C05"] = {
     "design_ref": "DESIGN.md section 4, C05",
     "note": "'needs no further wake-up' is oracle-decided (coverage.partial).",
     "technique": "Coq invariants over source-regenerated transition systems + lock-step trace inclusion + return-time oracles",
+}
+CHECKS["C04"] = {
+    "text": "Theorems (Coq) over CvModel (cv.c, one step per atomic site, values/guards regenerated): a waiter's record is on the cv queue "
+            "before the step that releases the mutex and stays there until a waker or the waiter itself takes it (C04_atomic_wait, "
+            "C04_queued_until_taken); CV_NON_EMPTY is set whenever the queue is non-empty outside spinlock sections (C04_non_empty); "
+            "broadcast takes every queued record and signal the first (plus following readers), and every taken record is woken or handed "
+            "to the mutex queue (C04_broadcast_covers, C04_signal_covers, C04_private_fate, C04_V_posts); a non-zero result only if the "
+            "waiter unlinked itself, so a wake-up is never reported as a timeout (C04_outcome, C04_outcome_waitn); no step touches a "
+            "nsync_wait_n record after its call returned (C04_no_dead_record) -- any threads / programs / schedules / clock / note.  "
+            "Lock-step replay with queue snapshots; stuck detector + return-value oracles over cv scenarios.",
+    "design_ref": "DESIGN.md section 4, C04",
+    "note": "C04_no_stuck partial (coverage.partial); abstract mutex inside CvModel.",
+    "technique": "Coq invariants over source-regenerated transition system + lock-step trace inclusion + scenario oracles",
 }
 NOT_APPLICABLE = {}
